@@ -542,6 +542,10 @@ def main():
                           mech={"what": b["what"], "space": b.get("space"), "lookup": b.get("lookup"),
                                 "species_form": b.get("species_form"), "position_form": b.get("position_form"),
                                 "value_form": b.get("value_form"), "error": b.get("error", "")})
+    # ---- history workloads: objects used, modified through their setters / re-used, used again (vf/history.py) ----
+    from vf.sandbox import run_extra as _run_extra
+    from vf.common import seed as _seed, tier as _tier
+    _run_extra(run, "vf.history:h_space_edits", [{"seed": _seed(), "idx": _i} for _i in range(2400 if _tier() == "thorough" else 240)], cpu_budget=60, kind_prefix="history: ")
     return run.finish()
 
 
